@@ -9,12 +9,132 @@ package certstore
 //@   pure
 //@   ensures result == cs.latestCertificate
 
+// ---------------------------------------------------------------------------------------------------------------
+// C09 / C10: the store. Keys: /certs/<i>, /power/<i>, /latestCert, /firstInstance under the /certstore namespace.
+
+//@ pred nextInstanceOf(cs *Store) = ite(cs.latestCertificate == nil, cs.firstInstance, cs.latestCertificate.GPBFTInstance + 1)
+
+//@ pred storeInv(cs *Store) = cs.powerTableFrequency > 0
+//@ pred noWrap(cs *Store) = cs.latestCertificate == nil || cs.latestCertificate.GPBFTInstance < 18446744073709551614
+
 //@ func (*Store).Put
+//@   property C09, C10
+//@   requires storeInv(cs)
 //@   modifies auto
+//@   maypanic
 //@   assumes result == nil ==> cs.latestCertificate != nil && cs.latestCertificate.GPBFTInstance >= old(cert.GPBFTInstance)
 //@   assumes cs.latestCertificate != nil ==> cs.latestCertificate.GPBFTInstance < 18446744073709551615
 //@   assumes old(cs.latestCertificate) != nil ==> cs.latestCertificate != nil && cs.latestCertificate.GPBFTInstance >= old(cs.latestCertificate.GPBFTInstance)
+//@   ensures[latest_pointer_only_advances_to_the_admitted_successor] cs.latestCertificate == old(cs.latestCertificate)
+//@        || (result == nil && cs.latestCertificate == cert && (old(noWrap(cs)) ==> old(cert.GPBFTInstance) == old(nextInstanceOf(cs))))
+//@   ensures[failed_put_changes_nothing_in_memory] result != nil ==> cs.latestCertificate == old(cs.latestCertificate) && cs.latestPowerTable == old(cs.latestPowerTable)
+//@   at Put 1
+//@     before[only_the_immediate_successor_is_admitted] noWrap(cs) ==> cert.GPBFTInstance == nextInstanceOf(cs) && cert.GPBFTInstance >= cs.firstInstance
+//@     before[delta_reproduces_the_committed_table] res(MakePowerTableCID, 1, 1) == nil && res(MakePowerTableCID, 1, 0) == cert.SupplementalData.PowerTable
+//@          && argOf(MakePowerTableCID, 1, 0) == newPowerTable
+//@     before[new_table_is_the_latest_table_with_the_delta_applied] ite(len(cert.PowerTableDelta) > 0,
+//@          res(ApplyPowerTableDiffs, 1, 1) == nil && newPowerTable == res(ApplyPowerTableDiffs, 1, 0) && argOf(ApplyPowerTableDiffs, 1, 0) == cs.latestPowerTable
+//@             && len(argOf(ApplyPowerTableDiffs, 1, 1)) == 1 && argOf(ApplyPowerTableDiffs, 1, 1)[0] == cert.PowerTableDelta,
+//@          newPowerTable == cs.latestPowerTable)
+//@     before[never_an_empty_table] len(newPowerTable) != 0
+//@     before[certificate_written_under_its_own_instance_key] arg(1) == res(keyForCert, 1) && argOf(keyForCert, 1, 1) == cert.GPBFTInstance && res(MarshalCBOR, 1) == nil
+//@   at putPowerTable 1
+//@     before[checkpoint_after_the_certificate] dominatedBy(Put, 1) && res(Put, 1) == nil
+//@     before[checkpoint_is_the_table_of_the_next_instance] cert.GPBFTInstance < 18446744073709551615 ==> (cert.GPBFTInstance + 1) % cs.powerTableFrequency == 0 && arg(2) == cert.GPBFTInstance + 1 && arg(3) == newPowerTable
+//@   at writeInstanceNumber 1
+//@     before[latest_pointer_is_written_last] dominatedBy(Put, 1) && res(Put, 1) == nil
+//@          && (cert.GPBFTInstance < 18446744073709551615 && (cert.GPBFTInstance + 1) % cs.powerTableFrequency == 0 ==> res(putPowerTable, 1) == nil)
+//@     before[latest_pointer_names_the_new_certificate] arg(2) == certStoreLatestKey && arg(3) == cert.GPBFTInstance
+//@   at chansend 1
+//@     before[subscriber_is_drained_before_the_send] dominatedBy(chanselect, 1) && dominatedBy(writeInstanceNumber, 1)
+
+//@ func (*Store).GetRange
+//@   property C09
+//@   modifies auto
+//@   maypanic
+//@   ensures[complete_range_or_not_found] result1 == nil ==> len(result0) == end - start + 1
+//@   ensures[never_more_than_the_range] start <= end && end - start < 9223372036854775807 ==> len(result0) <= end - start + 1
+//@   loop 1
+//@     invariant start <= end && i >= start && len(bCerts) == i - start && cap(bCerts) == end - start + 1 && i <= end + 1 && end - start < 9223372036854775807
+//@   at Get 1
+//@     before[reads_the_certificates_in_instance_order] arg(1) == res(keyForCert, 1) && argOf(keyForCert, 1, 1) == i && i == start + len(bCerts)
+//@   loop 2
+//@     invariant len(certs) == len(bCerts)
+//@   at UnmarshalCBOR 1
+//@     before[decodes_each_stored_certificate_into_its_slot] arg(0) == &certs[j] && argOf(NewReader, 1, 0) == bCert
 
 //@ func (*Store).GetPowerTable
+//@   property C09
+//@   requires storeInv(cs)
 //@   modifies auto
+//@   maypanic
 //@   assumes result1 == nil ==> isTableFor(result0, instance)
+//@   ensures[no_table_before_the_first_or_beyond_the_next_instance] result1 == nil && old(noWrap(cs)) ==> instance >= cs.firstInstance && instance <= old(nextInstanceOf(cs))
+//@   loop 1
+//@     invariant len(deltas) == len(certificates) && forall(k, 0, iter, deltas[k] == certificates[k].PowerTableDelta)
+//@   at readPowerTable 1
+//@     before[starts_from_the_nearest_checkpoint_at_or_below] arg(2) == max(instance - instance % cs.powerTableFrequency, cs.firstInstance)
+//@   at GetRange 1
+//@     before[replays_every_delta_between_checkpoint_and_instance] arg(2) == argOf(readPowerTable, 1, 2) && arg(3) == instance - 1 && res(readPowerTable, 1, 1) == nil
+//@   at ApplyPowerTableDiffs 1
+//@     before[applies_the_stored_deltas_in_order_to_the_checkpoint] res(GetRange, 1, 1) == nil && arg(0) == res(readPowerTable, 1, 0)
+//@          && len(arg(1)) == len(certificates) && forall(k, 0, len(certificates), arg(1)[k] == certificates[k].PowerTableDelta)
+//@   at return 3
+//@     before[cached_table_only_for_the_next_instance] (noWrap(cs) ==> instance == nextInstanceOf(cs)) && len(arg(0)) != 0 && arg(0) == cs.latestPowerTable
+
+// create: initial power table first, then the first-instance marker (C10); reopen derives the latest table from
+// the datastore, never from a value cached by the caller (C09).
+//@ func CreateStore
+//@   property C09, C10
+//@   modifies auto
+//@   maypanic
+//@   at putPowerTable 1
+//@     before[fresh_store_only] res(readInstanceNumber, 1, 1) != nil && arg(2) == firstInstance && arg(3) == initialPowerTable && len(initialPowerTable) != 0
+//@   at writeInstanceNumber 1
+//@     before[marker_written_after_the_initial_table] dominatedBy(putPowerTable, 1) && res(putPowerTable, 1) == nil && arg(2) == certStoreFirstKey && arg(3) == firstInstance
+
+//@ func OpenOrCreateStore
+//@   property C09, C10
+//@   modifies auto
+//@   maypanic
+//@   at writeInstanceNumber 1
+//@     before[marker_written_after_the_initial_table] dominatedBy(putPowerTable, 1) && res(putPowerTable, 1) == nil && arg(2) == certStoreFirstKey && arg(3) == firstInstance
+//@          && argOf(putPowerTable, 1, 2) == firstInstance && argOf(putPowerTable, 1, 3) == initialPowerTable
+//@   at GetPowerTable 1
+//@     before[latest_table_is_derived_from_the_datastore] len(cs.latestPowerTable) == 0 && (noWrap(cs) ==> arg(2) == cs.latestCertificate.GPBFTInstance + 1)
+
+//@ func OpenStore
+//@   property C09, C10
+//@   modifies auto
+//@   maypanic
+//@   at GetPowerTable 1
+//@     before[latest_table_is_derived_from_the_datastore] len(cs.latestPowerTable) == 0
+//@          && (noWrap(cs) ==> arg(2) == ite(cs.latestCertificate == nil, cs.firstInstance, cs.latestCertificate.GPBFTInstance + 1))
+
+// wipe: the tombstone is written first and deleted last; every other key is deleted while it exists; reopening
+// resumes the wipe on the datastore that DeleteAll wrote the tombstone to.
+//@ func maybeContinueDelete
+//@   property C10
+//@   modifies auto
+//@   maypanic
+//@   at Delete 1
+//@     before[tombstone_outlives_every_other_key] key != tombstoneKey && res(Has, 1, 0) && res(Has, 1, 1) == nil && arg(1) == key
+//@   at Delete 2
+//@     before[tombstone_is_deleted_last] arg(1) == tombstoneKey && res(Has, 1, 0)
+
+//@ func (*Store).DeleteAll
+//@   property C10
+//@   modifies auto
+//@   maypanic
+//@   at maybeContinueDelete 1
+//@     before[tombstone_is_written_before_anything_is_deleted] dominatedBy(Put, 1) && res(Put, 1) == nil && argOf(Put, 1, 1) == tombstoneKey && arg(1) == cs.ds
+
+//@ func open
+//@   property C10
+//@   harness harness/certstore_wipe_test.go
+//@   modifies auto
+//@   maypanic
+//@   ensures[a_store_being_opened_has_no_cached_table] result1 == nil ==> result0 != nil && result0.powerTableFrequency == 1440 && len(result0.latestPowerTable) == 0
+//@   at readInstanceNumber 1
+//@     before[an_interrupted_wipe_is_resumed_on_the_stores_own_datastore] (dominatedBy(maybeContinueDelete, 1) && argOf(maybeContinueDelete, 1, 1) == cs.ds && res(maybeContinueDelete, 1) == nil)
+//@          || (dominatedBy(maybeContinueDelete, 2) && argOf(maybeContinueDelete, 2, 1) == cs.ds && res(maybeContinueDelete, 2) == nil)
